@@ -429,7 +429,29 @@ pub fn add_func(b: &mut SchemeBuilder, f: &FuncSpec) -> Result<(), String> {
 /// to register the same name (or list type) again with something else.  The attempt must be refused and must
 /// leave no trace - every check that uses the scheme afterwards is a witness of that.
 pub fn build_scheme(s: &SchemeSpec) -> Scheme {
-    let mut b = SchemeBuilder::new();
+    build_scheme_route(s, 0)
+}
+
+/// The same scheme through the public construction routes: 0 = `SchemeBuilder::new()`, 1 = `SchemeBuilder::default()`
+/// (also what the C API's builder is).  On both routes the nil-not-equal setting is only written when the
+/// specification asks for the non-default one: "true by default" is part of the language (C01), so a scheme that
+/// never touches the setter must behave like one that sets it to true.  Route 2 = `new()` with the default written
+/// explicitly.
+pub fn build_scheme_route(s: &SchemeSpec, route: usize) -> Scheme {
+    if route == 3 {
+        // a scheme of fields only, read back from its own JSON form (C15: names, order, types, optionality survive;
+        // nothing else is part of the form, so every setting is the default)
+        let plain = build_scheme_route(s, 0);
+        if s.funcs.is_empty() && s.lists.is_empty() && s.nne {
+            if let Ok(j) = serde_json::to_string(&plain) {
+                if let Ok(back) = serde_json::from_str::<Scheme>(&j) {
+                    return back;
+                }
+            }
+        }
+        return plain;
+    }
+    let mut b = if route == 1 { SchemeBuilder::default() } else { SchemeBuilder::new() };
     for f in &s.fields {
         if f.opt {
             b.add_optional_field(&f.name, f.ty.to_engine()).unwrap();
@@ -456,7 +478,9 @@ pub fn build_scheme(s: &SchemeSpec) -> Scheme {
         let again = if k == "always" { b.add_list(t.to_engine(), NeverList::default()) } else { b.add_list(t.to_engine(), AlwaysList::default()) };
         assert!(again.is_err(), "a second list for one type was accepted");
     }
-    b.set_nil_not_equal_behavior(s.nne);
+    if !s.nne || route == 2 {
+        b.set_nil_not_equal_behavior(s.nne);
+    }
     b.build()
 }
 
